@@ -39,6 +39,7 @@ def core_constants(cfg, special=(), raisers=(), versioned=(), quiet=()):
         'Journal = %s' % tla_bool(cfg.get('journal', False)),
         'DumpFile = %s' % tla_bool(cfg.get('dump', False)),
         'Fork = %s' % tla_bool(cfg.get('fork', False)),
+        'UserSer = %s' % tla_bool(cfg.get('userser', False)),
         'InitConnected = %s' % tla_bool(cfg.get('init_connected', False)),
         'Conform = %s' % tla_bool(not cfg.get('versions', False)),
         'Isolated0 = %s' % tla_set(cfg.get('isolated0', [])),
